@@ -25,6 +25,7 @@ R = [(r'\breceive\.', 'receive->', '*'), (r'(?:Layout|layout_t)::data_channel_pd
      (r'using layout_t = typename pdu_layout_by_radio< typename LinkLayer::radio_t >::pdu_layout;', '', '*'),
      (r'details::advertising_type_base::is_valid_connect_request< layout_t >\( receive, link_layer\(\)\.local_address\(\) \)', 'is_valid_connect_request( receive, &G_local_address )', '*'),
      (r'self->is_valid_connect_request\( receive \)', 'adv_is_valid_connect_request( self, &receive )', '*'),
+     (r'self->is_valid_connect_request\( receive, ([\w>-]+) \)', r'multi_is_valid_connect_request( self, &receive, \1 )', '*'),
      (r'remote_address = device_address\( &body\[ 0 \], header & 0x40 \);', 'dev_ctor( remote_address, &body[ 0 ], header & 0x40 );', '*'),
      (r'self->base_link_layer\(\)\.is_connection_request_in_filter\( remote_address \)', 'll_is_connection_request_in_filter( remote_address )', '*'),
      (r'(?<!void )\bhandle_adv_timeout\(\);', 'handle_adv_timeout( self );', '*')]
@@ -55,6 +56,8 @@ EX = dict(BITS_EXTRACTS, **_c26.ADDR_EX,
     scn_connect=dict(file=ADV, scope=TYPE('scannable_undirected_advertising'), locate=r'bool is_valid_connect_request\( const read_buffer& \) const'),
     non_connect=dict(file=ADV, scope=TYPE('non_connectable_undirected_advertising'), locate=r'bool is_valid_connect_request\( const read_buffer& \) const'),
     handle_adv_receive=dict(file=ADV, scope=r'class advertiser< LinkLayer, std::tuple< Options\.\.\. >, std::tuple< Advertising > >', locate=r'bool handle_adv_receive\( read_buffer receive, device_address& remote_address \)', rules=RV),
+    multi_fields=dict(kind='fields', file=ADV, scope=r'class advertiser< LinkLayer, std::tuple< Options\.\.\. >, std::tuple< FirstAdv, SecondAdv, Advertisings\.\.\. > >', names=['selected_', 'proposal_']),
+    multi_handle_adv_receive=dict(file=ADV, scope=r'class advertiser< LinkLayer, std::tuple< Options\.\.\. >, std::tuple< FirstAdv, SecondAdv, Advertisings\.\.\. > >', locate=r'bool handle_adv_receive\( read_buffer receive, device_address& remote_address \)', rules=RV),
     **{k: dict(kind='expr', file=ADV, scope=BASE, locate=r'static constexpr std::(?:uint8_t|size_t)\s+%s\s*=' % k) for k in CONSTS},
 )
 HEAD = BITS_CODE + _c26.ADDR_CODE + r'''
@@ -109,7 +112,7 @@ __CPROVER_ensures(__CPROVER_return_value == CONNECT_FOR_ME)
 __CPROVER_assigns()
 {{base_connect}}
 /* ---- the advertising types */
-struct adv { {{directed_fields}} };
+struct adv { {{directed_fields}} {{multi_fields}} };
 #define ADV_OK(self) (__CPROVER_is_fresh(self, sizeof(struct adv)) && SAME((self)->addr_, W_target) && (self)->addr_valid_ == W_target_valid && SAME(G_local_address, W_local))
 bool und_is_valid_connect_request(const struct adv* self, const struct rbuf* receive)
 __CPROVER_requires(RX_OK(receive) && ADV_OK(self)) __CPROVER_ensures(__CPROVER_return_value == CONNECT_FOR_ME) __CPROVER_assigns()
@@ -151,7 +154,32 @@ __CPROVER_ensures(__CPROVER_return_value ==> (G_r.filter_calls == 1 && (G_pre_j 
 __CPROVER_ensures(!__CPROVER_return_value ==> G_r.timeout_calls == 1)
 __CPROVER_assigns(__CPROVER_object_whole(remote_address), G_r)
 {{handle_adv_receive}}
-#define SETUP W_size = nondet_size(); W_h0 = nondet_u8(); W_h1 = nondet_u8(); for (int k = 0; k < 12; ++k) W_a[k] = nondet_u8(); for (int k = 0; k < 6; ++k) { W_local.value_[k] = nondet_u8(); W_target.value_[k] = nondet_u8(); } \
+
+/* ---- several advertising types (advertiser< ..., std::tuple< FirstAdv, SecondAdv, ... > >): selected_ is the type of the PDU on air, proposal_ the one asked for next */
+#define N_TYPES 4
+int G_types[N_TYPES], W_types[N_TYPES]; unsigned W_selected, W_proposal;
+#define ACCEPTABLE_T(t) (((t) == ADV_UNDIRECTED && CONNECT_FOR_ME) || ((t) == ADV_DIRECTED && CONNECT_FOR_ME && FROM_TARGET))
+#define TYPES_OK (G_types[0] == W_types[0] && G_types[1] == W_types[1] && G_types[2] == W_types[2] && G_types[3] == W_types[3])
+/* template instantiation glue: multipl_advertiser_base< ... >::is_valid_connect_request( b, selected ) walks the type list to the selected type */
+bool multi_is_valid_connect_request(const struct adv* self, const struct rbuf* receive, unsigned selected)
+__CPROVER_requires(RX_OK(receive) && ADV_OK(self) && TYPES_OK && selected < N_TYPES)
+__CPROVER_ensures(__CPROVER_return_value == ACCEPTABLE_T(W_types[selected]))
+__CPROVER_assigns()
+{ switch (G_types[selected]) { case ADV_UNDIRECTED: return und_is_valid_connect_request(self, receive); case ADV_DIRECTED: return dir_is_valid_connect_request(self, receive);
+    case ADV_SCANNABLE: return scn_is_valid_connect_request(self, receive); default: return non_is_valid_connect_request(self, receive); } }
+bool multi_handle_adv_receive(struct adv* self, struct rbuf receive, struct device_address* remote_address)
+__CPROVER_requires(receive.size >= 2 + GAP && receive.size <= CAP && receive.size == W_size && __CPROVER_is_fresh(receive.buffer, 37) && RX_TIE(receive.buffer) && ADV_OK(self) && TYPES_OK)
+__CPROVER_requires(self->selected_ == W_selected && self->proposal_ == W_proposal && W_selected < N_TYPES && W_proposal < N_TYPES)
+__CPROVER_requires(__CPROVER_is_fresh(remote_address, sizeof(struct device_address)) && G_r.filter_calls == 0 && G_r.timeout_calls == 0)
+/* what counts is the advertising type of the PDU that is on air (selected_), not the one proposed for the next advertising event */
+__CPROVER_ensures(__CPROVER_return_value == (ACCEPTABLE_T(W_types[W_selected]) && W_in_filter))
+__CPROVER_ensures(__CPROVER_return_value ==> (G_r.filter_calls == 1 && (G_pre_j < 6 ==> (G_r.filter_arg.value_[G_pre_j] == W_a[G_pre_j] && remote_address->value_[G_pre_j] == W_a[G_pre_j]))
+    && G_r.filter_arg.is_random_ == ((W_h0 & 0x40) != 0) && remote_address->is_random_ == ((W_h0 & 0x40) != 0) && G_r.timeout_calls == 0))
+__CPROVER_ensures(!__CPROVER_return_value ==> G_r.timeout_calls == 1)
+__CPROVER_assigns(__CPROVER_object_whole(remote_address), G_r)
+{{multi_handle_adv_receive}}
+#define SETUP for (int k = 0; k < N_TYPES; ++k) { W_types[k] = nondet_int(); __CPROVER_assume(W_types[k] >= 0 && W_types[k] <= 3); G_types[k] = W_types[k]; } W_selected = nondet_uint(); W_proposal = nondet_uint(); \
+  W_size = nondet_size(); W_h0 = nondet_u8(); W_h1 = nondet_u8(); for (int k = 0; k < 12; ++k) W_a[k] = nondet_u8(); for (int k = 0; k < 6; ++k) { W_local.value_[k] = nondet_u8(); W_target.value_[k] = nondet_u8(); } \
   W_local.is_random_ = nondet_bool(); W_target.is_random_ = nondet_bool(); W_target_valid = nondet_bool(); W_adv_type = nondet_int(); W_in_filter = nondet_bool(); G_layout_nrf = nondet_bool(); G_adv_type = W_adv_type; \
   G_local_address = W_local; G_r.filter_calls = 0; G_r.timeout_calls = 0; G_pre_j = nondet_size(); struct rbuf* r; struct adv* a; struct device_address* d; BT_KNOWN_EXCLUDE()
 void h_dev_ctor(void) { SETUP; struct device_address x; uint8_t m[6]; dev_ctor(&x, m, nondet_bool()); BT_CANARY(); }
@@ -162,12 +190,14 @@ void h_scn_is_valid_connect_request(void) { SETUP; scn_is_valid_connect_request(
 void h_non_is_valid_connect_request(void) { SETUP; non_is_valid_connect_request(a, r); BT_CANARY(); }
 void h_adv_is_valid_connect_request(void) { SETUP; adv_is_valid_connect_request(a, r); BT_CANARY(); }
 void h_handle_adv_receive(void) { SETUP; struct rbuf x; x.size = W_size; handle_adv_receive(a, x, d); BT_CANARY(); }
+void h_multi_is_valid_connect_request(void) { SETUP; multi_is_valid_connect_request(a, r, W_selected); BT_CANARY(); }
+void h_multi_handle_adv_receive(void) { SETUP; struct rbuf x; x.size = W_size; multi_handle_adv_receive(a, x, d); BT_CANARY(); }
 '''
 UNITS = [
     dict(name='connect_request', extracts=EX, code=CODE, defines=['BT_NEED_COPY'],
          enforce=['dev_ctor', 'is_valid_connect_request', 'und_is_valid_connect_request', 'dir_is_valid_connect_request', 'scn_is_valid_connect_request', 'non_is_valid_connect_request',
-                  'adv_is_valid_connect_request', 'handle_adv_receive'],
-         replace=['bt_copy_u8', 'll_is_connection_request_in_filter', 'handle_adv_timeout', 'is_valid_connect_request', 'und_is_valid_connect_request', 'dir_is_valid_connect_request', 'scn_is_valid_connect_request', 'non_is_valid_connect_request', 'adv_is_valid_connect_request', 'dev_ctor']),
+                  'adv_is_valid_connect_request', 'handle_adv_receive', 'multi_is_valid_connect_request', 'multi_handle_adv_receive'],
+         replace=['bt_copy_u8', 'll_is_connection_request_in_filter', 'handle_adv_timeout', 'is_valid_connect_request', 'und_is_valid_connect_request', 'dir_is_valid_connect_request', 'scn_is_valid_connect_request', 'non_is_valid_connect_request', 'adv_is_valid_connect_request', 'multi_is_valid_connect_request', 'dev_ctor']),
 
 ]
 
@@ -272,7 +302,7 @@ META = dict(
     explanation="Connect requests (advertising.hpp, real bodies, both PDU layouts, every PDU size / header / addresses, every local and target address): "
                 "advertising_type_base::is_valid_connect_request returns true exactly for a PDU of the memory size of a 34 octet payload with PDU type 5, "
                 "length 34, AdvA == local address and RxAdd == local address type; the directed advertising variant additionally requires InitA / TxAdd "
-                "== the (valid) target address; scannable and non connectable advertising accept none; advertiser::handle_adv_receive returns true "
+                "== the (valid) target address; scannable and non connectable advertising accept none; advertiser::handle_adv_receive (single advertising type, and the variant for several types, which must judge by selected_ - the type on air) returns true "
                 "exactly when that holds and is_connection_request_in_filter( ( InitA, TxAdd ) ) does, reports that address as remote address, and "
                 "otherwise continues advertising (handle_adv_timeout exactly once). Scan requests are decided in the radio bindings' interrupt context: "
                 "nrf52_radio_base::is_valid_scan_request (nrf52.hpp) and scheduled_radio_base::is_valid_scan_request (nrf51.cpp) return true only if the "
@@ -281,8 +311,7 @@ META = dict(
                 "only to a PDU received intact for which that function returned true (contract in C15.py). The filter functions themselves "
                 "(white_list.hpp) are proved in C26.",
     assumptions=["the dispatch over the advertising type (Advertising::impl selected by the option list) and over the PDU layout is hand written glue "
-                 "(adv_is_valid_connect_request, layout_*); advertiser< ..., std::tuple< FirstAdv, SecondAdv, ... > > (several advertising types, selected_ index) "
-                 "has the same handle_adv_receive text and is not extracted separately",
+                 "(adv_is_valid_connect_request, layout_*); the type list walk of multipl_advertiser_base (is_valid_connect_request( b, selected )) is represented by an array of up to 4 type codes",
                  "the radio reports at least the 2 (+gap) header octets of a received PDU and at most the advertising receive buffer "
                  "(nrf52.hpp: size = min( capacity, length + 2 + gap ))",
                  "the address in the scan response PDU is the local address (written by fill_scan_response_data, C14 area)",
